@@ -24,7 +24,7 @@ from hsim.worlds.http import FlowRecord, HttpWorld
 
 PROPERTY = "C15"
 CHUNK = {"quick": 10, "thorough": 24}
-PROBES = ["waiter_took_response", "waiter_abandoned_while_subscribed", "preempt_after_release", "closed_session_collected", "session_closed_with_flows_parked", "released_after_its_session_closed",
+PROBES = ["preempt_won_the_race", "waiter_took_response", "waiter_abandoned_while_subscribed", "preempt_after_release", "closed_session_collected", "session_closed_with_flows_parked", "released_after_its_session_closed",
           "response_of_a_closed_session_handled", "two_sessions_in_one_simulator", "take_resume_later", "take_never_resumed", "raise_in_request_hook", "raise_in_response_hook",
           "raise_in_subscriber", "raise_in_logger", "malformed_seed_request", "malformed_eq_request",
           "malformed_seed_response", "malformed_eq_response", "malformed_uploader_response", "malformed_login_response",
@@ -86,6 +86,9 @@ def gen_plan(rng: random.Random, tier: str) -> dict:
               "sub_session": pick(SUB_BEH), "sub_region": pick(SUB_BEH),
               "logger_raises": rng.random() < 0.3, "later": rng.choice([0.0, 0.003, 0.05]),
               "origin_delay": rng.choice([0.0, 0.0, 0.01, 0.05])}
+        if "take_resume_preempt" in st["req_beh"] and rng.random() < 0.7:
+            st["origin_delay"] = 0.05       # the origin is slow enough for the pre-empting answer to win the race
+            st["later"] = rng.choice([0.0, 0.003])
         steps.append(st)
     if rng.random() < 0.3:
         # addon coroutines that wait for a particular cap's response (take by default): some wake up and own the flow,
@@ -643,6 +646,17 @@ def run_plan(plan: dict) -> RunResult:
                                 before=repr(cbs[0]["state"]["metadata"].get("cap_data_ser"))[:200],
                                 now=repr(stp["metadata"].get("cap_data_ser"))[:200])
                         break
+                    # ... and is applied to the flow it was meant for: when it clearly got there before the origin
+                    # answered, the proxy side must have put it in
+                    req_cb = next((c for c in cbs), None)
+                    t_orig = next((e[1] for e in rec.events if e[0] == "origin"), None)
+                    if (req_cb is not None and t_orig is not None and st["req_beh"].count("take_resume_preempt") == 1
+                            and pre[0]["t"] + cfg["queue_latency"] + 0.01 < t_orig):
+                        res.probe("preempt_won_the_race")
+                        if not any(e[0] == "preempted" for e in rec.events):
+                            violate("C15/state/preempting-response-never-applied", tag=tag, preempt_queued=pre[0]["t"],
+                                    origin_answered=t_orig)
+                            break
                 elif pre:
                     violate("C15/handoff/preempt-count", tag=tag, queued=len(pre), want=0)
                     break
